@@ -1,6 +1,8 @@
-(* C04 (i): the verifiers accept exactly the valid certificates. *)
+(* C04: (i) the verifiers accept exactly the valid messages; (ii) a message the verifiers reject leaves the
+   node state unchanged and produces no output; (iii) every mutation class maps a valid certificate to an
+   invalid one. The comparison expressions inside the verifiers are the regenerated ones (Guards.v). *)
 From Coq Require Import List NArith Lia Bool ZifyN ZifyBool.
-From HS Require Import GTac Node Proto Link.
+From HS Require Import GTac Node Corr Monitors Proto Link.
 Import ListNotations.
 Open Scope N_scope.
 
@@ -8,46 +10,130 @@ Section Exact.
   Variable c : Committee.
   Notation stk := (Node.stake c).
 
-  Lemma scan_signers_complete names : forall used w,
+  Lemma scan_signers_complete okst names : (forall s, s <> 0 -> okst s = true) -> forall used w,
     NoDup names -> (forall a, In a names -> ~ In a used /\ stk a <> 0) ->
-    scan_signers c names used w = ROk (w + wsum stk names).
+    scan_signers okst c names used w = ROk (w + wsum stk names).
   Proof.
+    intros Hok.
     induction names as [|a r IH]; intros used w Hnd Hall; simpl.
     - f_equal. lia.
     - inversion Hnd; subst. destruct (Hall a (or_introl eq_refl)) as [Hu Hs].
       destruct (memN a used) eqn:Em; [apply memN_in in Em; contradiction|].
-      destruct (stk a =? 0) eqn:E0; [apply N.eqb_eq in E0; contradiction|].
+      rewrite (Hok _ Hs). simpl.
       rewrite IH; auto.
       + f_equal. lia.
       + intros x Hx. destruct (Hall x (or_intror Hx)) as [A B]. split; auto.
         intros [<-|Hin]; [contradiction|contradiction].
   Qed.
 
+  (* ---------- specifications ---------- *)
   Definition qc_valid (q : QC) : Prop :=
     NoDup (map fst (qc_votes q)) /\
     (forall a, In a (map fst (qc_votes q)) -> stk a <> 0) /\
     Node.quorum c <= wsum stk (map fst (qc_votes q)) /\
     (forall v, In v (qc_votes q) -> sig_ok (fst v) (CVote (qc_hash q) (qc_round q)) (snd v) = true).
+  Definition tc_valid (t : TC) : Prop :=
+    NoDup (map (fun x => fst (fst x)) (tc_votes t)) /\
+    (forall a, In a (map (fun x => fst (fst x)) (tc_votes t)) -> stk a <> 0) /\
+    Node.quorum c <= wsum stk (map (fun x => fst (fst x)) (tc_votes t)) /\
+    (forall a s hq, In (a, s, hq) (tc_votes t) -> sig_ok a (CTimeout (tc_round t) hq) s = true).
+  (* the genesis certificate (hash zero, round 0, whatever its vote list) is the one stated exemption *)
+  Definition qc_valid_or_genesis (q : QC) : Prop := qc_eqb q qc_genesis = true \/ qc_valid q.
+  Definition vote_valid (v : Vote) : Prop :=
+    stk (v_author v) <> 0 /\ sig_ok (v_author v) (CVote (v_hash v) (v_round v)) (v_sig v) = true.
+  Definition timeout_valid (t : Timeout) : Prop :=
+    stk (t_author t) <> 0 /\
+    sig_ok (t_author t) (CTimeout (t_round t) (qc_round (t_high_qc t))) (t_sig t) = true /\
+    qc_valid_or_genesis (t_high_qc t).
+  Definition block_valid (b : Block) : Prop :=
+    stk (b_author b) <> 0 /\
+    sig_ok (b_author b) (CBlock (block_digest b)) (b_sig b) = true /\
+    qc_valid_or_genesis (b_qc b) /\
+    match b_tc b with Some t => tc_valid t | None => True end.
 
+  (* ---------- (i) exactness ---------- *)
   Theorem qc_verify_exact q : qc_verify c q = ROk tt <-> qc_valid q.
   Proof.
     unfold qc_verify, qc_valid. split.
     - intros H.
-      destruct (scan_signers c (map fst (qc_votes q)) [] 0) as [wt|e|k] eqn:Es; try discriminate.
-      destruct (wt <? Node.quorum c) eqn:Eq; [discriminate|].
+      destruct (scan_signers _ c (map fst (qc_votes q)) [] 0) as [wt|e|k] eqn:Es; try discriminate.
+      destruct (g_qc_weight wt (Node.quorum c)) eqn:Eq; [|discriminate]. simpl in H.
       destruct (forallb _ (qc_votes q)) eqn:Ef; [|discriminate].
-      apply scan_signers_ok in Es. destruct Es as [Hnd [Hall Hw]]. apply N.ltb_ge in Eq.
+      apply (scan_signers_ok c (fun _ => true)) in Es; [|gunf; intros s0 Hs0; lia]. destruct Es as [Hnd [Hall Hw]]. gunf. apply N.leb_le in Eq.
       split; [exact Hnd|]. split; [intros a Ha; apply (Hall a Ha)|]. split; [unfold Link.stk in Hw; lia|].
-      intros v Hv. rewrite forallb_forall in Ef. apply (Ef v Hv). exact (fun _ => true).
+      intros v Hv. rewrite forallb_forall in Ef. apply (Ef v Hv).
     - intros [Hnd [Hs [Hq Hsig]]].
-      rewrite (scan_signers_complete _ [] 0 Hnd); [|intros a Ha; split; [tauto|apply Hs; exact Ha]].
-      destruct (0 + wsum stk (map fst (qc_votes q)) <? Node.quorum c) eqn:Eq; [apply N.ltb_lt in Eq; lia|].
+      rewrite (scan_signers_complete g_qc_entry_stake _ ltac:(gunf; intros s0 Hs0; apply N.ltb_lt; lia) [] 0 Hnd);
+        [|intros a Ha; split; [tauto|apply Hs; exact Ha]].
+      assert (Eq : g_qc_weight (0 + wsum stk (map fst (qc_votes q))) (Node.quorum c) = true) by (gunf; apply N.leb_le; lia).
+      rewrite Eq. simpl.
       assert (Ef : forallb (fun v => sig_ok (fst v) (CVote (qc_hash q) (qc_round q)) (snd v)) (qc_votes q) = true)
         by (apply forallb_forall; exact Hsig).
       rewrite Ef. reflexivity.
   Qed.
 
-  (* every mutation class of C04 produces an invalid certificate *)
+  Theorem tc_verify_exact t : tc_verify c t = ROk tt <-> tc_valid t.
+  Proof.
+    unfold tc_verify, tc_valid. split.
+    - intros H.
+      destruct (scan_signers _ c (map (fun x => fst (fst x)) (tc_votes t)) [] 0) as [wt|e|k] eqn:Es; try discriminate.
+      destruct (g_tc_weight wt (Node.quorum c)) eqn:Eq; [|discriminate]. simpl in H.
+      destruct (forallb _ (tc_votes t)) eqn:Ef; [|discriminate].
+      apply (scan_signers_ok c (fun _ => true)) in Es; [|gunf; intros s0 Hs0; lia]. destruct Es as [Hnd [Hall Hw]]. gunf. apply N.leb_le in Eq.
+      split; [exact Hnd|]. split; [intros a Ha; apply (Hall a Ha)|]. split; [unfold Link.stk in Hw; lia|].
+      intros a s hq Hv. rewrite forallb_forall in Ef. apply (Ef _ Hv).
+    - intros [Hnd [Hs [Hq Hsig]]].
+      rewrite (scan_signers_complete g_tc_entry_stake _ ltac:(gunf; intros s0 Hs0; apply N.ltb_lt; lia) [] 0 Hnd);
+        [|intros a Ha; split; [tauto|apply Hs; exact Ha]].
+      assert (Eq : g_tc_weight (0 + wsum stk (map (fun x => fst (fst x)) (tc_votes t))) (Node.quorum c) = true) by (gunf; apply N.leb_le; lia).
+      rewrite Eq. simpl.
+      assert (Ef : forallb (fun v => match v with (a, s, hq) => sig_ok a (CTimeout (tc_round t) hq) s end) (tc_votes t) = true).
+      { apply forallb_forall. intros [[a s] hq] Hin. apply (Hsig a s hq Hin). }
+      rewrite Ef. reflexivity.
+  Qed.
+
+  Lemma pos_iff s : (0 <? s) = true <-> s <> 0.
+  Proof. rewrite N.ltb_lt. lia. Qed.
+
+  Theorem vote_verify_exact v : vote_verify c v = ROk tt <-> vote_valid v.
+  Proof.
+    unfold vote_verify, vote_valid. gunf. split.
+    - destruct (0 <? stk (v_author v)) eqn:E; simpl; [|discriminate].
+      destruct (sig_ok _ _ _) eqn:Es; [|discriminate]. intros _. split; [apply pos_iff; exact E|reflexivity].
+    - intros [Hs Hsig]. apply pos_iff in Hs. rewrite Hs, Hsig. reflexivity.
+  Qed.
+
+  Lemma qc_part_exact q :
+    (if qc_eqb q qc_genesis then ROk tt else qc_verify c q) = ROk tt <-> qc_valid_or_genesis q.
+  Proof.
+    unfold qc_valid_or_genesis. destruct (qc_eqb q qc_genesis) eqn:E.
+    - split; auto.
+    - rewrite qc_verify_exact. split; [intros H; right; exact H|intros [H|H]; [discriminate|exact H]].
+  Qed.
+
+  Theorem timeout_verify_exact t : timeout_verify c t = ROk tt <-> timeout_valid t.
+  Proof.
+    unfold timeout_verify, timeout_valid. gunf. split.
+    - destruct (0 <? stk (t_author t)) eqn:E; simpl; [|discriminate].
+      destruct (sig_ok _ _ _) eqn:Es; simpl; [|discriminate].
+      intros H. split; [apply pos_iff; exact E|]. split; [reflexivity|]. apply qc_part_exact. exact H.
+    - intros [Hs [Hsig Hq]]. apply pos_iff in Hs. rewrite Hs, Hsig. simpl. apply qc_part_exact. exact Hq.
+  Qed.
+
+  Theorem block_verify_exact b : block_verify c b = ROk tt <-> block_valid b.
+  Proof.
+    unfold block_verify, block_valid. gunf. split.
+    - destruct (0 <? stk (b_author b)) eqn:E; simpl; [|discriminate].
+      destruct (sig_ok _ _ _) eqn:Es; simpl; [|discriminate].
+      destruct (if qc_eqb (b_qc b) qc_genesis then ROk tt else qc_verify c (b_qc b)) as [[]|e|k] eqn:Eq; try discriminate.
+      intros H. split; [apply pos_iff; exact E|]. split; [reflexivity|]. split; [apply qc_part_exact; exact Eq|].
+      destruct (b_tc b) as [t|]; [apply tc_verify_exact; exact H|exact I].
+    - intros [Hs [Hsig [Hq Ht]]]. apply pos_iff in Hs. rewrite Hs, Hsig. simpl.
+      apply qc_part_exact in Hq. rewrite Hq.
+      destruct (b_tc b) as [t|]; [apply tc_verify_exact; exact Ht|reflexivity].
+  Qed.
+
+  (* ---------- (iii) every mutation class of C04 produces an invalid certificate ---------- *)
   Corollary qc_repeated_signer_rejected q a s1 s2 l1 l2 l3 :
     qc_votes q = l1 ++ (a, s1) :: l2 ++ (a, s2) :: l3 -> qc_verify c q <> ROk tt.
   Proof.
@@ -64,5 +150,92 @@ Section Exact.
     apply Hd. destruct ct as [d|h r|r hq]; simpl in E2; try discriminate.
     apply andb_true_iff in E2. destruct E2 as [A B]. apply digest_eqb_eq in A. apply N.eqb_eq in B. congruence.
   Qed.
+  Corollary qc_nonmember_rejected q a s : In (a, s) (qc_votes q) -> stk a = 0 -> qc_verify c q <> ROk tt.
+  Proof.
+    intros Hin Hz H. apply qc_verify_exact in H. destruct H as [_ [Hs _]].
+    apply (Hs a); [apply in_map_iff; exists (a, s); auto|exact Hz].
+  Qed.
+  Corollary qc_subquorum_rejected q : wsum stk (map fst (qc_votes q)) < Node.quorum c -> qc_verify c q <> ROk tt.
+  Proof. intros Hlt H. apply qc_verify_exact in H. destruct H as [_ [_ [Hq _]]]. lia. Qed.
+  Corollary tc_repeated_signer_rejected t a s1 h1 s2 h2 l1 l2 l3 :
+    tc_votes t = l1 ++ (a, s1, h1) :: l2 ++ (a, s2, h2) :: l3 -> tc_verify c t <> ROk tt.
+  Proof.
+    intros E H. apply tc_verify_exact in H. destruct H as [Hnd _]. rewrite E in Hnd.
+    rewrite map_app in Hnd. simpl in Hnd. apply NoDup_remove_2 in Hnd. apply Hnd.
+    apply in_or_app. right. rewrite map_app. apply in_or_app. right. left. reflexivity.
+  Qed.
+  Corollary tc_wrong_content_rejected t a x ct hq :
+    In (a, SigOf x ct, hq) (tc_votes t) -> (x <> a \/ ct <> CTimeout (tc_round t) hq) -> tc_verify c t <> ROk tt.
+  Proof.
+    intros Hin Hd H. apply tc_verify_exact in H. destruct H as [_ [_ [_ Hsig]]].
+    specialize (Hsig _ _ _ Hin). simpl in Hsig. apply andb_true_iff in Hsig. destruct Hsig as [E1 E2].
+    apply N.eqb_eq in E1. destruct Hd as [Hd|Hd]; [congruence|].
+    apply Hd. destruct ct as [d|h r|r hq']; simpl in E2; try discriminate.
+    apply andb_true_iff in E2. destruct E2 as [A B]. apply N.eqb_eq in A. apply N.eqb_eq in B. congruence.
+  Qed.
+  (* a signature of one kind never verifies as another kind; a block signature covers author, round, payload, parent *)
+  Corollary vote_sig_kind a h r x ct : sig_ok a (CVote h r) (SigOf x ct) = true -> x = a /\ ct = CVote h r.
+  Proof.
+    simpl. intros H. apply andb_true_iff in H. destruct H as [E1 E2]. apply N.eqb_eq in E1. split; [exact E1|].
+    destruct ct as [d|h' r'|r' hq]; simpl in E2; try discriminate.
+    apply andb_true_iff in E2. destruct E2 as [A B]. apply digest_eqb_eq in A. apply N.eqb_eq in B. congruence.
+  Qed.
+  Corollary block_altered_field_rejected b b' :
+    block_verify c b' = ROk tt -> b_sig b' = b_sig b -> b_author b' = b_author b ->
+    block_verify c b = ROk tt -> block_digest b' = block_digest b.
+  Proof.
+    intros H' Es Ea H. apply block_verify_exact in H. apply block_verify_exact in H'.
+    destruct H as [_ [S _]]. destruct H' as [_ [S' _]]. rewrite Es, Ea in S'.
+    destruct (b_sig b) as [x ct|k]; [|cbn [sig_ok] in S; discriminate]. cbn [sig_ok] in S, S'.
+    apply andb_true_iff in S. apply andb_true_iff in S'. destruct S as [_ S]. destruct S' as [_ S'].
+    destruct ct as [d|h r|r hq]; cbn [content_eqb] in S, S'; try discriminate.
+    apply digest_eqb_eq in S. apply digest_eqb_eq in S'. congruence.
+  Qed.
+
+  (* ---------- (ii) non-interference ---------- *)
+  Variable me : N.
+  Definition is_msg (e : Event) : bool :=
+    match e with EvPropose _ | EvVote _ | EvTimeout _ | EvTC _ => true | _ => false end.
+
+  Theorem c04_noninterference hint e s :
+    is_msg e = true -> ev_valid c e = false ->
+    exists r, step c me src_dq hint e s = (s, [], r) /\ (forall k, r <> RPanic k).
+  Proof.
+    intros Hm Hv. destruct e as [b|v|t|tc|b| |d|d| ]; try discriminate; cbn [step ev_valid] in *.
+    - unfold handle_proposal. unfold bind at 1.
+      destruct (b_author b =? leader c (b_round b)) eqn:El; cbn [andb] in Hv.
+      + unfold ret at 1. unfold bind at 1. unfold lift at 1.
+        destruct (block_verify c b) as [[]|e|k] eqn:Eb; [discriminate| |exfalso; eapply block_verify_nopanic; eauto].
+        exists (RErr e). split; [reflexivity|intros k; discriminate].
+      + unfold fail. exists (RErr EWrongLeader). split; [reflexivity|intros k; discriminate].
+    - unfold handle_vote. unfold bind at 1, get at 1.
+      destruct (g_vote_stale (v_round v) (s_round s)).
+      + exists (ROk tt). split; [reflexivity|intros k; discriminate].
+      + unfold bind at 1, lift at 1.
+        destruct (vote_verify c v) as [[]|e|k] eqn:Eb; [discriminate| |exfalso; eapply vote_verify_nopanic; eauto].
+        exists (RErr e). split; [reflexivity|intros k; discriminate].
+    - unfold handle_timeout. unfold bind at 1, get at 1.
+      destruct (g_timeout_stale (t_round t) (s_round s)).
+      + exists (ROk tt). split; [reflexivity|intros k; discriminate].
+      + unfold bind at 1, lift at 1.
+        destruct (timeout_verify c t) as [[]|e|k] eqn:Eb; [discriminate| |exfalso; eapply timeout_verify_nopanic; eauto].
+        exists (RErr e). split; [reflexivity|intros k; discriminate].
+    - unfold handle_tc. unfold bind at 1, lift at 1. unfold tc_okb in Hv.
+      destruct (tc_verify c tc) as [[]|e|k] eqn:Eb; [discriminate| |exfalso; eapply tc_verify_nopanic; eauto].
+      exists (RErr e). split; [reflexivity|intros k; discriminate].
+  Qed.
+
+  (* consequently any later event sequence behaves identically with or without the rejected message *)
+  Corollary c04_same_future hint e s rest :
+    is_msg e = true -> ev_valid c e = false ->
+    fst (run c me src_dq ((hint, e) :: rest) s) = fst (run c me src_dq rest s) /\
+    tl (snd (run c me src_dq ((hint, e) :: rest) s)) = snd (run c me src_dq rest s) /\
+    (exists r, hd ([], ROk tt) (snd (run c me src_dq ((hint, e) :: rest) s)) = ([], r)).
+  Proof.
+    intros Hm Hv. destruct (c04_noninterference hint e s Hm Hv) as [r [E _]].
+    cbn [run]. rewrite E. destruct (run c me src_dq rest s) as [s2 tr]. simpl. repeat split; eauto.
+  Qed.
 End Exact.
 Print Assumptions qc_verify_exact.
+Print Assumptions block_verify_exact.
+Print Assumptions c04_noninterference.
